@@ -187,7 +187,12 @@ def run_case(i, rng, rec, tier, state):
         if u != 1.0:
             ax, cen = [a * u for a in ax], cen * u
             rec.cls("curved:extreme-units")
-        s = cs.Circle(ax[0], cen) if which == "Circle" else cs.Ellipse(ax[0], ax[1], cen)
+        cen, carg, cform = gen.centre_form(rng, cen, max(ax))
+        rec.cls("centre:" + cform)
+        if carg is None:
+            s = cs.Circle(ax[0]) if which == "Circle" else cs.Ellipse(ax[0], ax[1])
+        else:
+            s = cs.Circle(ax[0], carg) if which == "Circle" else cs.Ellipse(ax[0], ax[1], carg)
         if aged:
             info["history"], _sib = aging.age_or_sibling(s, rng)
             ax = [float(s.radius)] if which == "Circle" else [float(s.a), float(s.b)]
@@ -255,6 +260,15 @@ def run_case(i, rng, rec, tier, state):
                   f"{which}.is_inside/answer-depends-on-memory-layout:{lab}", lambda: dict(info, layout=lab))
         rec.check("batch-vs-single", np.array_equal(arr, keep), f"{which}.is_inside/modifies-argument:{lab}", lambda: dict(info, layout=lab))
     ip = np.rint(arg[rng.choice(len(arg), size=min(16, len(arg)), replace=False)])
+    if which in ("Circle", "Ellipse") and float(cen[2]) == round(float(cen[2])) and abs(float(cen[2])) < 2 ** 30:
+        # whole-number lattice points all over the bounding box of the curved shape (in its own plane)
+        lo_ = np.floor([cen[0] - a2[0] - 1, cen[1] - a2[1] - 1])
+        hi_ = np.ceil([cen[0] + a2[0] + 1, cen[1] + a2[1] + 1])
+        if float(np.abs(np.concatenate((lo_, hi_))).max()) < 2 ** 30:
+            lat = rng.integers(lo_, hi_ + 1, size=(40, 2)).astype(float)
+            if ip.shape[1] == 3:
+                lat = np.column_stack((lat, np.full(len(lat), float(cen[2]))))
+            ip = np.vstack((ip, lat))
     if float(np.abs(ip).max()) < 2 ** 30:
         for form, argi in (("int64", ip.astype(np.int64)), ("int32", ip.astype(np.int32)), ("list-of-int-lists", [[int(x) for x in row] for row in ip])):
             rec.cls("form:" + form)
